@@ -576,7 +576,7 @@ EXTREME = ["0", "-0", "00", "127", "128", "-128", "-129", "255", "256", "32767",
 
 def mutate(rng, data, binary_ok=False):
     b = bytearray(data)
-    k = rng.choice(["flip", "trunc", "insert", "delete", "extreme", "dup", "arbitrary", "space", "nl"])
+    k = rng.choice(["flip", "trunc", "insert", "delete", "extreme", "dup", "arbitrary", "space", "nl", "edge", "edge"])
     if not b:
         return bytes(rng.randrange(0, 256) for _ in range(rng.randrange(0, 6)))
     if k == "flip":
@@ -596,6 +596,11 @@ def mutate(rng, data, binary_ok=False):
         i = rng.randrange(len(b)); j = min(len(b), i + rng.randrange(1, 12)); b[i:i] = b[i:j]
     elif k == "arbitrary":
         return bytes(rng.randrange(0, 256) for _ in range(rng.randrange(0, 40)))
+    elif k == "edge":
+        # a byte just outside a character class, next to a run of that class (SWAR classifiers: digits, lowercase letters)
+        runs = [i for i in range(len(b) + 1) if (i < len(b) and (48 <= b[i] <= 57 or 97 <= b[i] <= 122)) or (i > 0 and (48 <= b[i - 1] <= 57 or 97 <= b[i - 1] <= 122))]
+        i = rng.choice(runs) if runs else rng.randrange(len(b) + 1)
+        b[i:i] = bytes([rng.choice([0x60, 0x7b, 0x7b, 0x40, 0x5b, 0x2f, 0x3a, 0x7f, 0x80, 0xe1])])
     elif k == "space":
         i = rng.randrange(len(b)); b[i:i] = b" "
     else:
